@@ -13,7 +13,7 @@ K = {17: "minus", 18: "minusEmph", 19: "minusNon", 20: "plus", 21: "plusEmph", 2
      24: "file", 25: "hh", 26: "commit", 27: "hhFile", 28: "hhLine", 29: "wsErr", 30: "lnMinus", 31: "lnPlus",
      32: "lnZero", 33: "lnLeft", 34: "lnRight", 35: "grepFile", 36: "grepLine", 37: "grepMatch",
      38: "grepContext", 39: "grepSep", 40: "blameCode", 41: "blameSep", 42: "wrapSym", 43: "mergeOurs",
-     44: "mergeTheirs"}
+     44: "mergeTheirs", 45: "grepMatchLine", 46: "grepHdrFile"}
 LABELS = {"added": "LBLADD", "removed": "LBLDEL", "renamed": "LBLREN", "copied": "LBLCPY", "modified": "LBLMOD"}
 
 RS_BASE = [
